@@ -574,6 +574,10 @@ func (mw *TinkEncryptionPartStoreMiddleware) GetPart(ctx context.Context, tx dat
 		decryptReader, err := dekStreamingAEAD.NewDecryptingReader(rc, partId.Bytes())
 		if err != nil {
 			closeUnderlying()
+			if err == io.EOF {
+				// no tink stream header at all: truncated, not an empty part
+				err = io.ErrUnexpectedEOF
+			}
 			return nil, err
 		}
 
@@ -590,8 +594,14 @@ func (mw *TinkEncryptionPartStoreMiddleware) GetPart(ctx context.Context, tx dat
 // begins.
 func (mw *TinkEncryptionPartStoreMiddleware) readPartHeaderAndDEK(rc io.Reader, partId partstore.PartId) ([]byte, int, int64, error) {
 	// Read the header length (4 bytes big-endian)
+	// The header is read lazily on the first Read of the part, so an io.EOF
+	// returned from here would reach the caller as a clean end of stream: a
+	// stored part that ends before or inside its header is truncated, not empty.
 	lengthBytes := make([]byte, 4)
 	if _, err := io.ReadFull(rc, lengthBytes); err != nil {
+		if err == io.EOF {
+			err = io.ErrUnexpectedEOF
+		}
 		return nil, 0, 0, err
 	}
 
@@ -600,6 +610,9 @@ func (mw *TinkEncryptionPartStoreMiddleware) readPartHeaderAndDEK(rc io.Reader, 
 	// Read and parse the header
 	headerBytes := make([]byte, headerLen)
 	if _, err := io.ReadFull(rc, headerBytes); err != nil {
+		if err == io.EOF {
+			err = io.ErrUnexpectedEOF
+		}
 		return nil, 0, 0, err
 	}
 
